@@ -37,12 +37,24 @@ def fl(x):
     return float(x)
 
 
+MODE = 'float'   # 'int': integral coordinates are passed as Python ints (set per family by the explorer)
+
+
+def _num(c):
+    if MODE == 'int':
+        f = float(c)
+        if f == int(f):
+            return int(f)
+        return f
+    return float(c)
+
+
 def P(p):
-    return Point(float(p[0]), float(p[1]), float(p[2]))
+    return Point(_num(p[0]), _num(p[1]), _num(p[2]))
 
 
 def V(d):
-    return Vector(float(d[0]), float(d[1]), float(d[2]))
+    return Vector(_num(d[0]), _num(d[1]), _num(d[2]))
 
 
 class ConstructionFailed(Exception):
